@@ -469,6 +469,24 @@ def run(ctx, R, R2):
                         if len(rr) == 1 and mirrored(rr[0], lambda x: x[0] == 'param'):
                             scan['map'] = True
                     scan['none'] = True     # position() yields None when nothing matches
+                elif is_call(rv, 'Option::<T>::map') and any(is_call(x, 'Iterator::find') for x in walk(rv)) and any(is_call(x, 'Iterator::zip') for x in walk(rv)):
+                    # inputs.iter().zip((0..ntrans).rev()).find(|&(&b2, _)| b == b2).map(|(_, i)| i): storage position p is paired with
+                    # ntrans - 1 - p by the reversed range
+                    scan['form'] = 'zip-rev+find'
+                    zp = [x for x in walk(rv) if is_call(x, 'Iterator::zip')][0]
+                    rngs = [x for x in walk(zp[2][1]) if x[0] == 'agg' and x[1].endswith('ops::Range')]
+                    rev = any(is_call(x, 'Iterator::rev') for x in walk(zp[2][1]))
+                    okr = bool(rngs) and dict(rngs[0][2]).get('start') == ('const', 0) and eq(rlin(dict(rngs[0][2]).get('end')), NT) and rev and not any(is_call(x, 'Iterator::rev') for x in walk(zp[2][0]))
+                    for c in [x for x in walk(rv) if x[0] == 'closure']:
+                        cf = lib.fns.get(c[1])
+                        if cf is None:
+                            continue
+                        rr = [q.ret() for q in rets(cf)]
+                        if len(rr) == 1 and rr[0][0] == 'bin' and rr[0][1] == 'Eq':
+                            scan['eq'] = True
+                        if len(rr) == 1 and rr[0][0] == 'field' and rr[0][2] == '1' and rr[0][1][0] == 'param':
+                            scan['map'] = okr          # the paired (mirrored) index is what is returned
+                    scan['none'] = True
                 elif rv[0] == 'agg' and rv[1].endswith('::Some'):
                     # explicit loop with early return
                     scan['form'] = scan['form'] or 'loop'
